@@ -254,6 +254,11 @@ pub struct Model {
     align: [u16; 16],
     len: LenEnc,
     replen: LenEnc,
+    /// WRONG-decoder emulation (used to write inputs that only a defective decoder accepts): a literal in a
+    /// matched-literal state is coded as a plain literal when its match byte lies outside the window
+    pub wrong_plain_literal_outside_window: bool,
+    /// WRONG-decoder emulation: a copy from outside the window yields zero bytes instead of ending the encoding
+    pub wrong_zeros_outside_window: bool,
 }
 
 impl Model {
@@ -280,6 +285,8 @@ impl Model {
             align: [0x400; 16],
             len: LenEnc::new(),
             replen: LenEnc::new(),
+            wrong_plain_literal_outside_window: false,
+            wrong_zeros_outside_window: false,
         }
     }
     pub fn with_dict(mut self, dict: u64) -> Self {
@@ -320,6 +327,12 @@ impl Model {
     }
     fn copy(&mut self, dist: u32, len: u32) -> bool {
         if !self.ref_ok(dist as u64) {
+            if self.wrong_zeros_outside_window {
+                for _ in 0..len {
+                    self.win.push(0);
+                }
+                return true;
+            }
             return false;
         }
         for _ in 0..len {
@@ -359,13 +372,18 @@ impl Model {
                 let probs = &mut self.lit[ls * 0x300..(ls + 1) * 0x300];
                 let mut m = 1usize;
                 let mut valid = true;
-                if self.state >= 7 {
+                let outside = {
+                    let d = self.rep[0] as u64 + 1;
+                    !(d <= pos as u64 && d <= self.dict)
+                };
+                if self.state >= 7 && !(self.wrong_plain_literal_outside_window && outside) {
                     self.cover.matched_literals += 1;
                     let d = self.rep[0] as u64 + 1;
                     let mb = if d <= pos as u64 && d <= self.dict {
                         self.win[pos - d as usize]
                     } else {
-                        valid = false;
+                        // (a decoder that fabricates zero bytes for references outside the window reads match byte 0)
+                        valid = self.wrong_zeros_outside_window;
                         0
                     } as usize;
                     let mut matched = true;
@@ -421,6 +439,10 @@ impl Model {
                 self.state = if self.state < 7 { 9 } else { 11 };
                 let d = self.rep[0].wrapping_add(1);
                 if self.rep[0] == u32::MAX {
+                    if self.wrong_zeros_outside_window {
+                        self.win.push(0);
+                        return true;
+                    }
                     return false;
                 }
                 self.copy(d, 1)
@@ -449,6 +471,12 @@ impl Model {
                 self.replen.enc(rc, len - 2, ps);
                 self.state = if self.state < 7 { 8 } else { 11 };
                 if self.rep[0] == u32::MAX {
+                    if self.wrong_zeros_outside_window {
+                        for _ in 0..len {
+                            self.win.push(0);
+                        }
+                        return true;
+                    }
                     return false;
                 }
                 let d = self.rep[0] + 1;
